@@ -33,6 +33,7 @@ func (c sCmd) String() string {
 }
 
 type sProgram struct {
+	Orca    string   `json:"orca,omitempty"` // "" = L1L2 main + L1L2Batch batch; "l1only" = L1Only on both
 	Multi   bool     `json:"multiReader"`
 	Conc    uint8    `json:"concurrency"`
 	Preset  []string `json:"preset"` // keys present (in L1 and L2) at the start
@@ -49,7 +50,7 @@ func (p sProgram) String() string {
 		}
 		ts = append(ts, fmt.Sprintf("T%d[%s]", i, strings.Join(cs, "; ")))
 	}
-	return fmt.Sprintf("multi=%v conc=%d preset=%v l2only=%v %s", p.Multi, p.Conc, p.Preset, p.L2Only, strings.Join(ts, " "))
+	return fmt.Sprintf("orca=%q multi=%v conc=%d preset=%v l2only=%v %s", p.Orca, p.Multi, p.Conc, p.Preset, p.L2Only, strings.Join(ts, " "))
 }
 
 // history entry for porcupine
@@ -142,6 +143,7 @@ var kvModel = porcupine.Model{
 }
 
 type sRun struct {
+	Panics    []string
 	Violation string
 	Trace     [][2]int
 	Switches  int
@@ -168,9 +170,9 @@ func execProgram(p sProgram, prefix []int, inject func(l1, l2 *tierStore, res []
 	tick := func() int64 { clock++; return clock }
 	var ops []porcupine.Operation
 	type span struct {
-		key        string
-		call, ret  int64
-		mutating   bool
+		key       string
+		call, ret int64
+		mutating  bool
 	}
 	var spans []span
 	resps := make([]*recResponder, len(p.Threads))
@@ -182,6 +184,10 @@ func execProgram(p sProgram, prefix []int, inject func(l1, l2 *tierStore, res []
 	}
 	mainC := orcas.LockedWithExisting(orcas.L1L2, ls.slot)
 	batchC := orcas.LockedWithExisting(orcas.L1L2Batch, ls.slot)
+	if p.Orca == "l1only" {
+		mainC = orcas.LockedWithExisting(orcas.L1Only, ls.slot)
+		batchC = mainC
+	}
 	var run sRun
 	for ti, cmds := range p.Threads {
 		ti, cmds := ti, cmds
@@ -199,31 +205,46 @@ func execProgram(p sProgram, prefix []int, inject func(l1, l2 *tierStore, res []
 				ttl := uint32(1000 + ti*100 + ci) // a label, unique per command
 				call := tick()
 				var err error
-				switch c.Kind {
-				case wire.Set:
-					err = o.Set(common.SetRequest{Key: []byte(c.Keys[0]), Data: []byte(val), Flags: flags, Exptime: ttl})
-				case wire.Add:
-					err = o.Add(common.SetRequest{Key: []byte(c.Keys[0]), Data: []byte(val), Flags: flags, Exptime: ttl})
-				case wire.Replace:
-					err = o.Replace(common.SetRequest{Key: []byte(c.Keys[0]), Data: []byte(val), Flags: flags, Exptime: ttl})
-				case wire.Append:
-					err = o.Append(common.SetRequest{Key: []byte(c.Keys[0]), Data: []byte(val)})
-				case wire.Prepend:
-					err = o.Prepend(common.SetRequest{Key: []byte(c.Keys[0]), Data: []byte(val)})
-				case wire.Delete:
-					err = o.Delete(common.DeleteRequest{Key: []byte(c.Keys[0])})
-				case wire.Touch:
-					err = o.Touch(common.TouchRequest{Key: []byte(c.Keys[0]), Exptime: ttl})
-				case wire.Gat:
-					err = o.Gat(common.GATRequest{Key: []byte(c.Keys[0]), Exptime: ttl})
-				case wire.Get:
-					req := common.GetRequest{}
-					for i, k := range c.Keys {
-						req.Keys = append(req.Keys, []byte(k))
-						req.Opaques = append(req.Opaques, uint32(i))
-						req.Quiet = append(req.Quiet, false)
+				panicked := false
+				func() {
+					defer func() {
+						if r := recover(); r != nil {
+							panicked = true
+							run.Panics = append(run.Panics, fmt.Sprintf("T%d %s: %v", ti, c, r))
+						}
+					}()
+					switch c.Kind {
+					case wire.Set:
+						err = o.Set(common.SetRequest{Key: []byte(c.Keys[0]), Data: []byte(val), Flags: flags, Exptime: ttl})
+					case wire.Add:
+						err = o.Add(common.SetRequest{Key: []byte(c.Keys[0]), Data: []byte(val), Flags: flags, Exptime: ttl})
+					case wire.Replace:
+						err = o.Replace(common.SetRequest{Key: []byte(c.Keys[0]), Data: []byte(val), Flags: flags, Exptime: ttl})
+					case wire.Append:
+						err = o.Append(common.SetRequest{Key: []byte(c.Keys[0]), Data: []byte(val)})
+					case wire.Prepend:
+						err = o.Prepend(common.SetRequest{Key: []byte(c.Keys[0]), Data: []byte(val)})
+					case wire.Delete:
+						err = o.Delete(common.DeleteRequest{Key: []byte(c.Keys[0])})
+					case wire.Touch:
+						err = o.Touch(common.TouchRequest{Key: []byte(c.Keys[0]), Exptime: ttl})
+					case wire.Gat:
+						err = o.Gat(common.GATRequest{Key: []byte(c.Keys[0]), Exptime: ttl})
+					case wire.Get:
+						req := common.GetRequest{}
+						for i, k := range c.Keys {
+							req.Keys = append(req.Keys, []byte(k))
+							req.Opaques = append(req.Opaques, uint32(i))
+							req.Quiet = append(req.Quiet, false)
+						}
+						err = o.Get(req)
 					}
-					err = o.Get(req)
+				}()
+				if h := s.threads[tid].held; h != 0 {
+					run.Violation = fmt.Sprintf("T%d still holds %d key lock(s) after %s returned (panicked=%v)", ti, h, c, panicked)
+				}
+				if panicked {
+					return // the connection is gone after a panic
 				}
 				ret := tick()
 				class := "ok"
@@ -252,7 +273,7 @@ func execProgram(p sProgram, prefix []int, inject func(l1, l2 *tierStore, res []
 						spans = append(spans, span{k, call, ret, false})
 						run.History = append(run.History, fmt.Sprintf("[%d,%d] T%d %s %q -> %+v", call, ret, ti, c.Kind, k, out))
 					}
-					if c.Kind == wire.Get && err == nil && res.ends != 1 {
+					if c.Kind == wire.Get && err == nil && res.ends != 1 && inject == nil {
 						run.Violation = fmt.Sprintf("T%d %s wrote %d get terminators", ti, c, res.ends)
 					}
 				default:
@@ -288,8 +309,12 @@ func execProgram(p sProgram, prefix []int, inject func(l1, l2 *tierStore, res []
 		resetLockSet(p.Multi, p.Conc)
 		return run
 	}
+	if inject == nil && len(run.Panics) > 0 {
+		run.Violation = "panic without an injected fault: " + run.Panics[0]
+		return run
+	}
 	for _, t := range s.threads {
-		if t.panicV != nil && inject == nil {
+		if t.panicV != nil {
 			run.Violation = fmt.Sprintf("thread %d panicked: %v", t.id, t.panicV)
 			resetLockSet(p.Multi, p.Conc)
 			return run
